@@ -12,7 +12,7 @@ RULE = ("for each of the four pairing modules, scalars a, b, a', b' from {0, 1, 
         "and several representatives of infinity: pairing(bG2, aG1) == e0^(ab mod r) with e0 = pairing(G2, G1); "
         "pairing(Q+Q', P) == pairing(Q, P) pairing(Q', P) and the same in P, the sum formed by the model or by the module's own add() on differently scaled representatives (including Q' = Q); pairing(-Q, P) == pairing(Q, -P) == "
         "pairing(Q, P)^-1; e0 != 1 and e0^r == 1; infinity in either slot gives FQ12.one(); a right-typed point "
-        "that is not on its curve (coordinate + 1, random coordinates, any scaling; the other argument a subgroup point or infinity) raises ValueError instead of "
+        "that is not on its curve (coordinate + 1, random coordinates, the origin (0, 0, z) and points with one zero coordinate, any scaling; the other argument a subgroup point or infinity) raises ValueError instead of "
         "returning a value. Non-trivial = ab != 0 mod r with max(a, b) >= 2^128, an additivity case with "
         "distinct non-zero summands, a scaled representative or an off-curve refusal; distinct by input digest")
 ASSUMPTIONS = ["points are built by the affine model (vf/model/ec.py) from the published generators",
@@ -20,7 +20,7 @@ ASSUMPTIONS = ["points are built by the affine model (vf/model/ec.py) from the p
 ENGINE = "hypothesis (algebraic laws)"
 TECHNIQUE = ("property-based testing (Hypothesis) of algebraic laws: bilinearity, additivity, inversion, order r, unit on infinity, refusal of off-curve input")
 _REQ = [f"{law}:{m}" for m in pc.MODULES for law in ("bilinear", "additive", "negation", "order", "infinity", "offcurve")]
-_REQ += ["additive:library_sum", "additive:library_sum_of_equal_points", "bilinear:raw_first", "bilinear:scaled", "bilinear:big_scalars", "infinity:rep", "offcurve:other_argument_infinity"]
+_REQ += ["additive:library_sum", "additive:library_sum_of_equal_points", "bilinear:raw_first", "bilinear:scaled", "bilinear:big_scalars", "infinity:rep", "offcurve:other_argument_infinity", "offcurve:origin"]
 REQUIRED_LABELS = {"quick": _REQ, "thorough": _REQ}
 
 
@@ -173,7 +173,13 @@ def o_offcurve(ctx, case):
     F, bcoef = C.group(g)
     good = pc.kG(curve, g, k)
     one = F.one
-    if how == "y+1":
+    if how == "origin":
+        bad = (F.zero, F.zero)                       # (0, 0): on no curve y^2 = x^3 + b with b != 0
+    elif how == "x=0":
+        bad = (F.zero, good[1])
+    elif how == "y=0":
+        bad = (good[0], F.zero)
+    elif how == "y+1":
         bad = (good[0], F.add(good[1], one))
     elif how == "x+1":
         bad = (F.add(good[0], one), good[1])
@@ -200,6 +206,8 @@ def o_offcurve(ctx, case):
     ctx.check(out is ValueError, "offcurve", "paired", case,
               f"{name}: pairing accepted an off-curve {g} argument ({how}) and returned a value")
     ctx.label(f"offcurve:{name}")
+    if how == "origin":
+        ctx.label("offcurve:origin")
     if other == "inf":
         ctx.label("offcurve:other_argument_infinity")
     ctx.nontrivial(("x", name, k, slot, how, case.get("v"), case.get("s"), other, rep))
@@ -276,7 +284,7 @@ def t_cheap(ctx, module, n):
                 d["v"] = [[d["v"][0], 1], [d["v"][1], 2]] if g2 else [d["v"][0][0], d["v"][1][0]]
         return d
     strat = st.fixed_dictionaries({"module": st.just(name), "k": st.integers(1, 60), "slot": st.sampled_from(["Q", "P"]),
-                                   "how": st.sampled_from(["y+1", "x+1", "random"]), "v": v,
+                                   "how": st.sampled_from(["y+1", "x+1", "random", "origin", "x=0", "y=0"]), "v": v,
                                    "other": st.sampled_from(["finite", "inf"]), "rep": st.integers(0, 2),
                                    "s": st.one_of(st.none(), st.none()) if not opt else st.none()}).map(fix)
     if opt:
@@ -284,7 +292,7 @@ def t_cheap(ctx, module, n):
         sq, sp = _scales(name)
         strat = st.tuples(strat, sq, sp).map(lambda t: dict(t[0], s=t[1] if t[0]["slot"] == "Q" else t[2]))
     ex = [{"module": name, "k": 2, "slot": s, "how": h, "v": None, "s": None, "other": o, "rep": 1}
-          for s in ("Q", "P") for h in ("y+1", "x+1") for o in ("finite", "inf")]
+          for s in ("Q", "P") for h in ("y+1", "x+1", "origin", "y=0") for o in ("finite", "inf")]
     drive(ctx, f"off{name}", strat, lambda c: o_offcurve(ctx, c), n, ex)
 
 
